@@ -488,6 +488,26 @@ def c19_programs(tier):
                         yield emit([("loop", 2, [st]), ("take", "after")])
                     if thorough or wi < 2:
                         yield emit([("take", "pre0"), st, ("take", "after")])
+    # do choose / do shuffle over sub-scenarios in a compose block
+    scns = {
+        "QA": {"pre": ["pa"], "compose": [("wait",)]},
+        "QB": {"pre": ["pb"], "compose": [("wait",), ("wait",)]},
+        "QC": {"pre": ["pc"], "terminate_after": (1, "steps"), "compose": None},
+    }
+    snames = ["QA", "QB", "QC"]
+    for kind in ("choose", "shuffle"):
+        for n, wsets in ((2, C19_WEIGHTS2[:3]), (3, C19_WEIGHTS3[:3])):
+            for wi, ws in enumerate(wsets):
+                for form in (("dict", "list") if wi == 0 else ("dict",)):
+                    items = [(snames[i], ws[i] if form == "dict" else 1) for i in range(n)]
+                    st = (kind, items, form)
+                    for body in ([st, ("wait",)], [("wait",), st, st]):
+                        sc = dict(scns)
+                        sc["Main"] = {"terminate_after": (8, "steps"), "compose": body}
+                        prog = {"behaviors": {"B": {"body": [("loop", None, [("take", "a")])]}}, "monitors": {}, "agents": [("A1", "B")], "scenarios": sc, "main": "Main", "top": {}}
+                        i = idx
+                        idx += 1
+                        yield i, prog
     # run-time random values evaluated inside a behavior, twice in a row
     for spec in [
         ("uniform", ("u1", "u2", "u3")),
